@@ -344,6 +344,9 @@ def run(c, chk):
     from . import c09 as _c09
     _c09.untitled_does_not_end_search(c, _c08.chk_proxy(chk, {'R9.9': 'R11.11'}), ex)
 
+    # ---- R11.13: the name looked up for a step is the whole step
+    whole_step_looked_up(c, chk, ex, sec)
+
     # ---- R11.12: a well-formed quoted qualifier always names a title (also the empty one)
     quoted_title_accepted(c, chk, ex)
 
@@ -480,6 +483,50 @@ def step_loop(c, secf):
             cands.sort(key=lambda h: -len(loops[h]))
             return g, cands[0]
     raise report.Broken('cfg_getopt_secidx(): step loop not found')
+
+
+def whole_step_looked_up(c, chk, ex, sec):
+    """R11.13: a step of a path names an option by its whole text up to the separator.  The name handed to the leaf lookup is a
+    copy of exactly that text (strndup(name, len)) - or, when it is put into a buffer of fixed size, the path has shown that
+    the step fits: a longer name would be looked up by its first bytes only, and select a sibling whose name is that prefix"""
+    import re as _re
+    chk.rule('R11.13', 'the step name handed to the leaf lookup is the whole step: a fixed-size buffer is used only after the step length was shown to fit into it')
+    stepf, hdr = step_loop(c, sec)
+    leafs = set(leaf_functions(c))
+    n = 0
+    bad = None
+    for p in _loops.iterate(ex, stepf, hdr):
+        for e in p.events:
+            if e.kind != 'call' or e.name not in leafs or len(e.args) < 2:
+                continue
+            n += 1
+            a = e.args[1]
+            o = sym.object_of(a) if a[0] in ('alloca', 'idx', 'fld') else None
+            if o is None or o[0] != 'alloca':
+                continue
+            reg = o[1].split('@')[0]
+            fn_ = c.func(o[1].split('@')[1]) if '@' in o[1] else stepf
+            d = fn_.defs.get(reg) if fn_ is not None else None
+            m = _re.match(r'^\[(\d+) x i8\]$', (d.srcty or '').strip()) if d is not None and d.op == 'alloca' else None
+            if not m:
+                continue
+            size = int(m.group(1))
+            fits = False
+            for cn, t, _ in p.assume[:e.seq]:
+                if cn[0] == 'icmp' and sym.is_const(cn[3]) and sym.mentions(cn[2], lambda v: v[0] == 'call' and v[1] in ('strcspn', 'strlen')):
+                    k = cn[3][1]
+                    if (cn[1] in ('ult', 'slt') and t and k <= size) or (cn[1] in ('ule', 'sle') and t and k < size) or \
+                            (cn[1] in ('uge', 'sge') and not t and k <= size) or (cn[1] in ('ugt', 'sgt') and not t and k < size):
+                        fits = True
+            if not fits:
+                bad = bad or (e, size)
+    if bad is not None:
+        e, size = bad
+        chk.fail('R11.13', 'step-name-truncated', c.where(e.ins), 'the step name is looked up from a local buffer of %d bytes without the step length having been compared with that size: '
+                 'a section name of %d characters or more is looked up by its first %d only (not found, or a sibling with that shorter name is taken)' % (size, size, size - 1))
+    elif n:
+        chk.ok('R11.13', '%d leaf lookups in the step loop' % n, 'each with a copy of the whole step (no fixed-size buffer)')
+    chk.floor('R11.13 leaf lookups in the step loop', n, 1)
 
 
 def quoted_title_accepted(c, chk, ex):
